@@ -98,6 +98,19 @@ fn typing(t: &mut Tape, ctx: &mut Ctx) -> CheckResult {
     let l = lo.map_adapted(to_lax_d(f));
     let l = wf(ctx, "optic-wf", from_lax(&l), "lax map_adapted(f)")?.strictify().map_err(|e| ctx.fail("optic-wf", e))?;
     require_iso(ctx, "lax-adapted-is-definition", &l, &want_adapted, "lax Optic::map_adapted(f) vs the definition")?;
+    // lax entry points on an argument that still carries pending unifications
+    let pend = gen::pending_pairs(t, f, 2, true);
+    if !pend.is_empty() {
+        let lx = crate::model::Lax { d: f.clone(), q: pend.clone() };
+        let fq = lx.strictify().expect("consistent");
+        let (wp, wpa) = optic_image(&fq, &o);
+        let l = lo.map_arrow(to_lax(&lx));
+        let l = wf(ctx, "optic-wf", from_lax(&l), "lax Optic(f with pending)")?.strictify().map_err(|e| ctx.fail("optic-wf", e))?;
+        require_iso(ctx, "lax-optic-respects-pending", &l, &wp, "lax Optic::map_arrow on an argument with pending unifications")?;
+        let l = lo.map_adapted(to_lax(&lx));
+        let l = wf(ctx, "optic-wf", from_lax(&l), "lax map_adapted(f with pending)")?.strictify().map_err(|e| ctx.fail("optic-wf", e))?;
+        require_iso(ctx, "lax-optic-respects-pending", &l, &wpa, "lax Optic::map_adapted on an argument with pending unifications")?;
+    }
     // functoriality
     let og = wf(ctx, "optic-wf", sv::op_optic(&o, g), "Optic(g)")?;
     let fg = f.compose(g).expect("composable");
